@@ -1,4 +1,7 @@
 (* Executable model of the gortsplib media pipeline (property C01). Proof-free.
+   (Describes the code after e586e4c "detach the writer before closing it"; the model of the code before
+   that commit, with the refutation of the order clause, is kept in history/.)
+
 
    One writer (ServerStream.WritePacketRTP, or Client.WritePacketRTP of a publisher) fans packets out
    to readers.  Per reader the code has
@@ -50,10 +53,12 @@ Fixpoint media_of (setup : list (N * N)) (ch : N) : option N :=
   | (m, ch') :: t => if ch' =? ch then Some m else media_of t ch
   end.
 
+(* WClosed: destroyWriter has set writer = nil but has not yet closed the asyncprocessor *)
 Inductive wst := WNone | WOpen (started : bool) | WClosed (started : bool).
 Inductive phase := PhIdle | PhPlayReq | PhPlaying | PhStopReq.
 
-(* i_late / d_late (ghost): the packet was pushed after the writer had been closed (see r_push) *)
+(* d_late (ghost): over UDP, delivered at or after the receiver's first position reset (see r_arrive).
+   i_late is always false since e586e4c (nothing is pushed to a detached writer); over TCP d_late copies it. *)
 Record item := mkItem { i_chan : N; i_m : N; i_f : N; i_idx : N; i_late : bool; i_pkt : packet }.
 Record dentry := mkD { d_m : N; d_f : N; d_idx : N; d_late : bool; d_pkt : packet }.
 
@@ -63,10 +68,7 @@ Record rstate := mkR {
   r_ph : phase;
   r_active : bool;
   r_w : wst;
-  r_queue : list item;        (* the writer's ring buffer while it is open: a bounded FIFO (C16) *)
-  r_ring : list (option item); (* the same ring buffer after Close(): its slots, cleared by Close ... *)
-  r_rp : N;                   (* ... and its read and write positions, which Close does NOT reset *)
-  r_wp : N;                   (*     (positions relative to the read index at the time of Close) *)
+  r_queue : list item;        (* the writer's ring buffer: a bounded FIFO (C16) *)
   r_wire : list item;
   r_con : bool;               (* client side accepts media (allowInterleavedFrames / listeners running) *)
   r_deliv : list dentry;      (* callbacks invoked, oldest first *)
@@ -78,20 +80,17 @@ Record rstate := mkR {
 Record state := mkS { s_written : list (N * N * packet); s_readers : list rstate }.
 
 Definition new_reader (tcp : bool) (setup : list (N * N)) : rstate :=
-  mkR tcp setup PhIdle false WNone [] [] 0 0 [] false [] [] [] [] 0.
+  mkR tcp setup PhIdle false WNone [] [] false [] [] [] [] 0.
 
 (* --- field updates --- *)
 Definition upd_ctl (r : rstate) (ph : phase) (a : bool) (w : wst) (con : bool) : rstate :=
-  mkR (r_tcp r) (r_setup r) ph a w (r_queue r) (r_ring r) (r_rp r) (r_wp r) (r_wire r) con (r_deliv r) (r_hist r) (r_lost r)
+  mkR (r_tcp r) (r_setup r) ph a w (r_queue r) (r_wire r) con (r_deliv r) (r_hist r) (r_lost r)
       (r_rx r) (r_resets r).
 Definition upd_data (r : rstate) (q wi : list item) (dl : list dentry) (h l : list N) : rstate :=
-  mkR (r_tcp r) (r_setup r) (r_ph r) (r_active r) (r_w r) q (r_ring r) (r_rp r) (r_wp r) wi (r_con r) dl h l
+  mkR (r_tcp r) (r_setup r) (r_ph r) (r_active r) (r_w r) q wi (r_con r) dl h l
       (r_rx r) (r_resets r).
-Definition upd_ring (r : rstate) (ring : list (option item)) (rp wp : N) : rstate :=
-  mkR (r_tcp r) (r_setup r) (r_ph r) (r_active r) (r_w r) (r_queue r) ring rp wp (r_wire r) (r_con r)
-      (r_deliv r) (r_hist r) (r_lost r) (r_rx r) (r_resets r).
 Definition upd_rx (r : rstate) (rx : list (N * N * (N * N))) (resets : N) : rstate :=
-  mkR (r_tcp r) (r_setup r) (r_ph r) (r_active r) (r_w r) (r_queue r) (r_ring r) (r_rp r) (r_wp r) (r_wire r)
+  mkR (r_tcp r) (r_setup r) (r_ph r) (r_active r) (r_w r) (r_queue r) (r_wire r)
       (r_con r) (r_deliv r) (r_hist r) (r_lost r) rx resets.
 
 Fixpoint rx_get (rx : list (N * N * (N * N))) (m f : N) : option (N * N) :=
@@ -103,14 +102,6 @@ Fixpoint rx_set (rx : list (N * N * (N * N))) (m f : N) (v : N * N) : list (N * 
   match rx with
   | [] => [(m, f, v)]
   | (m', f', v') :: t => if (m' =? m) && (f' =? f) then (m, f, v) :: t else (m', f', v') :: rx_set t m f v
-  end.
-
-(* the closures sitting in the slots of a ring *)
-Fixpoint ritems (ring : list (option item)) : list item :=
-  match ring with
-  | [] => []
-  | Some x :: t => x :: ritems t
-  | None :: t => ritems t
   end.
 
 Definition idxs (l : list item) : list N := map i_idx l.
@@ -155,10 +146,9 @@ Definition r_stopreq (r : rstate) : option rstate :=
   | PhPlayReq | PhPlaying => Some (upd_ctl r PhStopReq (r_active r) (r_w r) (r_con r))
   | _ => None
   end.
-(* the consumer goroutine runs one queued closure: queue head -> transport.  After Close() of the
-   processor the consumer is still alive until it finds the slot at its read index empty, or until it is
-   joined (= r_nilw): it runs whatever is pushed into that slot meanwhile (RingBuffer.Pull tests the slot
-   before it tests closed). *)
+(* the consumer goroutine runs one queued closure: queue head -> transport.  After destroyWriter has detached
+   the writer (writer = nil) the consumer keeps running what is queued until asyncprocessor.Close() drops the
+   rest and joins it (= r_nilw). *)
 Definition r_drain (c : cfg) (r : rstate) : option rstate :=
   match r_w r with
   | WOpen true =>
@@ -167,33 +157,24 @@ Definition r_drain (c : cfg) (r : rstate) : option rstate :=
       | [] => None
       end
   | WClosed true =>
-      match nnth (r_rp r) (r_ring r) with
-      | Some (Some x) =>
-          Some (upd_ring (upd_data r (r_queue r) (r_wire r ++ [x]) (r_deliv r) (r_hist r) (r_lost r))
-                         (nset (r_rp r) None (r_ring r)) ((r_rp r + 1) mod c_Q c) (r_wp r))
-      | _ => None
+      match r_queue r with
+      | x :: q => Some (upd_data r q (r_wire r ++ [x]) (r_deliv r) (r_hist r) (r_lost r))
+      | [] => None
       end
   | _ => None
   end.
-(* destroyWriter, first half: asyncprocessor.Close -> ringbuffer.Close sets every slot to nil (dropping
-   every queued closure) but leaves readIndex and writeIndex where they are: with n closures queued the
-   write position is n slots ahead of the read position. *)
+(* destroyWriter, first half: writer = nil under the writer lock - nothing is pushed any more *)
 Definition r_closew (c : cfg) (r : rstate) : option rstate :=
   match r_ph r, r_w r with
-  | PhStopReq, WOpen st =>
-      Some (upd_ring (upd_data (upd_ctl r PhStopReq (r_active r) (WClosed st) (r_con r))
-                               [] (r_wire r) (r_deliv r) (r_hist r) (r_lost r ++ idxs (r_queue r)))
-                     (nrep None (c_Q c)) 0 (nlen (r_queue r) mod c_Q c))
+  | PhStopReq, WOpen st => Some (upd_ctl r PhStopReq (r_active r) (WClosed st) (r_con r))
   | _, _ => None
   end.
-(* destroyWriter, second half: the consumer has been joined, writer = nil (what was pushed after Close
-   and not run by then is never run) *)
+(* destroyWriter, second half: asyncprocessor.Close() drops what is still queued and joins the consumer *)
 Definition r_nilw (r : rstate) : option rstate :=
   match r_ph r, r_w r with
   | PhStopReq, WClosed _ =>
-      Some (upd_ring (upd_data (upd_ctl r PhStopReq (r_active r) WNone (r_con r))
-                               (r_queue r) (r_wire r) (r_deliv r) (r_hist r) (r_lost r ++ idxs (ritems (r_ring r))))
-                     [] 0 0)
+      Some (upd_data (upd_ctl r PhStopReq (r_active r) WNone (r_con r))
+                     [] (r_wire r) (r_deliv r) (r_hist r) (r_lost r ++ idxs (r_queue r)))
   | _, _ => None
   end.
 (* readerSetInactive *)
@@ -288,8 +269,7 @@ Definition r_lose (i : N) (r : rstate) : option rstate :=
   end.
 
 (* writePacketRTPEncoded for one reader: returns the new state and whether queue-full is reported.
-   Push does not look at the closed flag: between Close() and writer = nil a closure is accepted whenever
-   the slot at the write index is free. *)
+   writer == nil (WNone, and WClosed = detached) : the packet is silently dropped. *)
 Definition r_push (c : cfg) (m f idx : N) (p : packet) (r : rstate) : rstate * bool :=
   if r_active r then
     match chan_of (r_setup r) m with
@@ -302,14 +282,7 @@ Definition r_push (c : cfg) (m f idx : N) (p : packet) (r : rstate) : rstate * b
             then (upd_data r (r_queue r ++ [mkItem ch m f idx false p]) (r_wire r) (r_deliv r)
                            (r_hist r ++ [idx]) (r_lost r), false)
             else (r, true)
-        | WClosed _ =>
-            match nnth (r_wp r) (r_ring r) with
-            | Some None =>
-                (upd_ring (upd_data r (r_queue r) (r_wire r) (r_deliv r) (r_hist r ++ [idx]) (r_lost r))
-                          (nset (r_wp r) (Some (mkItem ch m f idx true p)) (r_ring r))
-                          (r_rp r) ((r_wp r + 1) mod c_Q c), false)
-            | _ => (r, true)
-            end
+        | WClosed _ => (r, false)
         end
     end
   else (r, false).
